@@ -538,17 +538,30 @@ def member_text(m, ind, ctx=None):
     return s
 
 
-def module_text(types, name='M', tags='AUTOMATIC TAGS', ctx=None):
+def module_text(types, name='M', tags='AUTOMATIC TAGS', ctx=None, split=False, lib_first=None, ext_implied=False):
     """types: list of (TypeName, type); with a RefCtx the types are rendered reorganised
-    (hoisted sub-types, value references) and the helper assignments are appended."""
+    (hoisted sub-types, value references) and the helper assignments are appended.
+    split=True puts the helper assignments into a second module `<name>Lib` and IMPORTS them."""
     parts = ['%s ::= %s\n' % (n, type_text(t, 1, _NoHoist(ctx) if ctx is not None else None)) for n, t in types]
+    header = '%s DEFINITIONS %s%s ::= BEGIN\n\n' % (name, tags, ' EXTENSIBILITY IMPLIED' if ext_implied else '')
+    if ctx is not None and split and ctx.defs:
+        extra = list(ctx.defs)
+        ctx.rng.shuffle(extra)
+        names = [d.split(' ')[0] for d in extra]
+        # helper assignments may reference each other: they all live in the library module
+        lib = '%sLib DEFINITIONS %s%s ::= BEGIN\n\n%s\nEND\n' % (name, tags, ' EXTENSIBILITY IMPLIED' if ext_implied else '',
+                                                                 '\n'.join(d + '\n' for d in extra))
+        main = header + 'IMPORTS %s FROM %sLib;\n\n' % (', '.join(names), name) + '\n'.join(parts) + '\nEND\n'
+        first = ctx.rng.random() < 0.5 if lib_first is None else lib_first
+        ctx.flags.add('split-modules')
+        return (lib + '\n' + main) if first else (main + '\n' + lib)
     if ctx is not None:
         extra = list(ctx.defs)
         ctx.rng.shuffle(extra)
         k = ctx.rng.randint(0, len(extra))
         parts = [d + '\n' for d in extra[:k]] + parts + [d + '\n' for d in extra[k:]]
     body = '\n'.join(parts)
-    return '%s DEFINITIONS %s ::= BEGIN\n\n%s\nEND\n' % (name, tags, body)
+    return header + '%s\nEND\n' % body
 
 
 # ---------------------------------------------------------------------- rendering: model S-expressions
